@@ -9,6 +9,10 @@ use brush_parser::ast;
 /// (e.g., a=b, b=c, c=a would cycle through variable dereferences).
 const MAX_VARIABLE_DEREF_DEPTH: u32 = 1024;
 
+/// Maximum nesting of expression evaluation as a whole (operators, subscripts and
+/// dereferences together); bounds the native stack an evaluation can use.
+const MAX_EVAL_DEPTH: u32 = 384;
+
 /// Represents an error that occurs during evaluation of an arithmetic expression.
 #[derive(Debug, thiserror::Error)]
 pub enum EvalError {
@@ -134,6 +138,15 @@ fn eval_expr_impl(
     shell: &mut Shell<impl extensions::ShellExtensions>,
     depth: u32,
 ) -> Result<i64, EvalError> {
+    // Every level of evaluation counts against the recursion limit, not only variable
+    // dereferences: a variable whose value mentions itself inside a subscript or under
+    // operators (`a="b[a+1]"`, `a="1+(2*a)"`) recurses through those as well, and must end
+    // in an error rather than in stack exhaustion.
+    if depth > MAX_EVAL_DEPTH {
+        return Err(EvalError::RecursionLimitExceeded);
+    }
+    let depth = depth + 1;
+
     let value = match expr {
         ast::ArithmeticExpr::Literal(l) => *l,
         ast::ArithmeticExpr::Reference(lvalue) => deref_lvalue(shell, lvalue, depth)?,
